@@ -2,6 +2,8 @@
 
 package client
 
+import "github.com/hydraide/hydraide/sdk/go/hydraidego/v3/hydraidepbgo"
+
 // NewWithRoutingTable builds a client whose island routing table is filled from the given
 // servers' island ranges exactly as Connect fills it (later servers overwrite earlier ones),
 // without dialing anything. Used by the verification harness only.
@@ -17,4 +19,44 @@ func NewWithRoutingTable(servers []*Server, allIslands uint64) Client {
 		}
 	}
 	return c
+}
+
+// verifServiceClient stands for the gRPC client of one host, so that GetServiceClient's answer
+// can be told apart per host without a connection.
+type verifServiceClient struct {
+	hydraidepbgo.HydraideServiceClient
+	host string
+}
+
+// NewWithRoutingTableAndClients is NewWithRoutingTable with a distinguishable GrpcClient per host.
+func NewWithRoutingTableAndClients(servers []*Server, allIslands uint64) Client {
+	c := &client{
+		serviceClients: make(map[uint64]*ServiceClient),
+		servers:        servers,
+		allIslands:     allIslands,
+	}
+	RefillRoutingTable(c, servers)
+	return c
+}
+
+// RefillRoutingTable assigns the islands of the given servers' ranges the way Connect does for
+// its server list (entries are overwritten, nothing is removed), under the client's lock.
+func RefillRoutingTable(cl Client, servers []*Server) {
+	c := cl.(*client)
+	c.mu.Lock()
+	defer c.mu.Unlock()
+	for _, server := range servers {
+		svc := &verifServiceClient{host: server.Host}
+		for island := server.FromIsland; island <= server.ToIsland; island++ {
+			c.serviceClients[island] = &ServiceClient{GrpcClient: svc, Host: server.Host}
+		}
+	}
+}
+
+// HostOfServiceClient reports the host a GrpcClient handed out by GetServiceClient stands for.
+func HostOfServiceClient(sc hydraidepbgo.HydraideServiceClient) (string, bool) {
+	if v, ok := sc.(*verifServiceClient); ok {
+		return v.host, true
+	}
+	return "", false
 }
